@@ -84,3 +84,13 @@ for _v, _db, _st in _VOC:
         LEMMAS.append(("spelling-%s-resolves-like-%s/%s" % (_p[:-1], _first[:-1], _v),
                        "forall(lambda x=str, mono=bool, p=Optional[int]: parse_%s_mass('%s' + x, mono, p) == parse_%s_mass('%s' + x, mono, p) and "
                        "parse_%s_comp('%s' + x) == parse_%s_comp('%s' + x))" % (_v, _p, _v, _first, _v, _p, _v, _first)))
+
+# the two vocabulary tests that also consult the tables: a documented prefix (any case), or an accession / a name of the vocabulary
+C[M + 'is_unimod_str'] = dict(
+    params=dict(unimod_str='str'), returns='bool', pure=True, raises={},
+    ensures=[('prefix-or-known-accession-or-name', "result == (iprefix(unimod_str, 'unimod:') or iprefix(unimod_str, 'u:') or "
+                                                   '(unimod_str in UNIMOD_DB.id_map) or (unimod_str in UNIMOD_DB.name_map))')])
+C[M + 'is_psi_mod_str'] = dict(
+    params=dict(psi_str='str'), returns='bool', pure=True, raises={},
+    ensures=[('prefix-or-known-accession-or-name', "result == (iprefix(psi_str, 'mod:') or iprefix(psi_str, 'm:') or iprefix(psi_str, 'psi-mod:') or "
+                                                   '(psi_str in PSI_MOD_DB.id_map) or (psi_str in PSI_MOD_DB.name_map))')])
